@@ -91,11 +91,10 @@ macro_rules! assert_eq_ignore_ws {
 
 impl Rasn {
     pub(crate) fn inner_name(&self, name: &str, parent_name: &str) -> Ident {
-        format_ident!(
-            "{}{}",
-            parent_name,
-            self.to_rust_title_case(name).to_string()
-        )
+        // the hoisted type is declared under the title case of this name: an escaped
+        // keyword (`R_Self`) in either half must not leave an underscore behind
+        let joined = format!("{}{}", parent_name, self.to_rust_title_case(name));
+        format_ident!("{}", self.to_rust_title_case(&joined).to_string())
     }
 
     pub(crate) fn int_type_token(
